@@ -58,6 +58,12 @@ def real_objects(ROOT, REPO, spec, bdir, hdr_hash):
             if glob_:
                 sh(['objcopy'] + sum([['--globalize-symbol', g] for g in glob_], []) + [tmp])
             os.replace(tmp, o)
+            pref = os.path.basename(s).replace('.', '_') + '-'
+            for f in sorted(glob.glob(os.path.join(cdir, pref + '*.o')), key=os.path.getmtime)[:-3]:
+                try:
+                    os.unlink(f)
+                except OSError:
+                    pass
         objs.append(o)
     return objs
 
@@ -132,9 +138,15 @@ def replay(ROOT, REPO, spec, entry, defines, vals, rdir, bdir, hdr_hash, descrip
                 'ASAN_OPTIONS=alloc_dealloc_mismatch=0:detect_leaks=0:exitcode=98 exec "%s" replay "%s"\n' % (keep, vf))
     os.chmod(os.path.join(rdir, 'replay.sh'), 0o755)
     try:
-        r = sh([exe, 'replay', vf], env=ENV, timeout=120)
+        r = sh([keep, 'replay', vf], env=ENV, timeout=120)
     except subprocess.TimeoutExpired:
         return True, 'real build did not terminate within 120 s on the counterexample'
+    finally:
+        if keep != exe:
+            try:
+                os.unlink(exe)
+            except OSError:
+                pass
     txt = (r.stdout + r.stderr)[-3000:]
     tag = description.split(':')[0]
     if r.returncode == 77:
@@ -162,6 +174,11 @@ def differential(ROOT, REPO, spec, entry, defines, bdir, hdr_hash, seed, count):
         rx = sh([ex_x, 'random', str(seed), str(count)], env=ENV, timeout=300)
     except subprocess.TimeoutExpired:
         return {'status': 'error', 'msg': 'native run timed out'}
+    for f_ in (ex_r, ex_x):   # the binaries are rebuilt on every run; do not keep them
+        try:
+            os.unlink(f_)
+        except OSError:
+            pass
     if rr.returncode != 0:
         return {'status': 'real-crash', 'msg': 'real build crashed during random vectors (exit %d): %s' % (rr.returncode, (rr.stdout[-300:] + rr.stderr[-1200:]))}
     if rx.returncode != 0:
